@@ -55,6 +55,17 @@ CHECKS = {
             'All 16-bit keys are tried on the field table and on the trait set of a live instance of every message, header, trailer and nested group of both schemas; names and near misses '
             'on the message/reverse tables; thousands of random op histories on both presorted_set templates.',
             'Independent schema model; ASan for the memmove/memcpy paths.', '3 C12'),
+    'C16': ('session_sim', 'exploration', 'runtime monitor over recorded histories: wire bytes read from the peer socket + session counters + persisted control record at every quiescent point vs a numbering model',
+            'Thousands of histories (5..60 steps) of application sends, batches, administrative sends, in-sequence inbound traffic, resend requests and restarts with recovery on one real Session '
+            '(acceptor/initiator, file/memory persister, recovered or explicit start numbers); every new message must carry the next number and the control record must equal the counters after every command.',
+            'Single-threaded process model (pm_coro) on a loopback socket; concurrency is C25, gaps are C19/C20. A gap fill announcing a number beyond the next one moves the numbering there.', '3 C16'),
+    'C17': ('session_sim', 'exploration', 'runtime monitor: every new message seen on the wire is read back from the persister by number and compared byte for byte (application) / must be absent (administrative)',
+            'Same histories as C16 (every history mixes single sends, batches and administrative sends; file and memory persisters); read-back happens before every restart and at the end.',
+            'Wire bytes are those read from the peer socket.', '3 C17'),
+    'C18': ('session_sim', 'exploration', 'runtime monitor: the reply to each ResendRequest is walked against an independent model of the sent log (which numbers are stored application messages)',
+            'Random patterns of stored and unstored numbers, 8 kinds of request range (inside, to infinity, single, from 1, end/begin beyond the latest, whole; one or two requests), file/memory/no persister; '
+            'replays must be complete, ascending, PossDup with OrigSendingTime = original SendingTime and identical bodies; gap fills must carry the first number of their gap and skip nothing stored.',
+            'NewSeqNo may extend over numbers without a stored message; numbers above the latest sent need no cover.', '3 C18'),
     'C26': ('persist_model', 'exploration', 'model-based history checking: every API return of MemoryPersister/FilePersister vs a std::map + control-pair model, under ASan+UBSan',
             'Thousands of random histories (up to 120 operations, small key spaces so that collisions, refusals and empty ranges are frequent, reopen for the file store) '
             'are compared call by call with the model derived from the property text; range retrieval is observed through the retransmission callback.',
@@ -115,6 +126,8 @@ def main():
              'kind_free_text': 'micro-monitors: real primitive + oracle from the property text, ASan/UBSan build'},
             {'name': 'codec_exec', 'path': 'harness/codec_exec.cpp', 'serves_properties': ['C01', 'C02', 'C03', 'C04', 'C05', 'C06', 'C11'],
              'kind_free_text': 'generic reflection-driven codec executor; generator and oracles in pylib/fixgen.py, pylib/fixwire.py, checks/codec.py'},
+            {'name': 'session_sim', 'path': 'harness/session_sim.cpp', 'serves_properties': ['C16', 'C17', 'C18', 'C19', 'C20', 'C22', 'C23'],
+             'kind_free_text': 'one real Session on a real connection (pm_coro, loopback TCP, virtual clock, timer thread stopped) driven interactively; python FIX session models in checks/session.py'},
             {'name': 'persist_model', 'path': 'harness/persist_model.cpp', 'serves_properties': ['C26'], 'kind_free_text': 'random API histories vs map model'},
             {'name': 'persist_crash', 'path': 'harness/persist_crash.cpp', 'serves_properties': ['C27'], 'kind_free_text': 'fork + write/lseek countdown crash injection, reopen oracle'},
             {'name': 'logger_stress', 'path': 'harness/logger_stress.cpp', 'serves_properties': ['C28'], 'kind_free_text': 'producer threads + offline exactly-once/order checker'},
